@@ -136,10 +136,15 @@ CLAIMS = {
              "only if it provably does not wrap, wrapped values feeding loop variables are reported; the iterator "
              "position invariant -1 <= pos <= size and the search-loop invariants are proved inductively; "
              "begin()/rbegin()/++/-- must not reach a throw (so an empty or all-zero bitset is iterated without "
-             "exception). All positions and shift distances below 2^60 are covered. Bit-level agreement with a "
-             "reference model (count/any/to_string, << vs <<=) is not decided.",
-        note="trusted base: clang front end, extractor, cv/lin.py + cv/bounds.py, the size model of std::vector<bool>; "
-             "positions < 2^60 assumed",
+             "exception). Positions are covered over the full size_t range (beyond max_size(): std::length_error), shift "
+             "distances below 2^62; << / <<= and >> / >>= are proved to yield the same size for every operand. The "
+             "summarising observers are decided against the reference bit vector: polarity of the std::find/"
+             "std::count definitions of all/any/none/count, visit-all proofs for to_ulong (start 0, step 1, ends only "
+             "at size(), overflow exception only for a set position >= 64, shift distance < 64) and to_string "
+             "(size() characters, a set bit i stores `one` at size()-1-i). Bit-level results of the mutating "
+             "operators (&=, |=, ^=, shifts, flip) and the order of iteration are not decided.",
+        note="trusted base: clang front end, extractor, cv/lin.py + cv/bounds.py, the size model of std::vector<bool>, "
+             "std::find/std::count semantics; shift distances < 2^62 assumed",
         technique="static analysis: relational (linear inequality) abstract interpretation, inductive loop/iterator invariants"),
     "C13": dict(
         level="proof", engine="engine D (digits.py)",
